@@ -1,5 +1,400 @@
-"""AVM self-test (placeholder filled below)."""
+"""Conformance self-test of the reference AVM (run by setup_cmd and before every check).
+
+(i)  single-op vectors transcribed from the AVM opcode specification, including the
+     failure edges the oracles rely on;
+(ii) small programs with known results (the behavioural expectations of the upstream
+     graviton tests: exp, factorial, fibonacci, gcd ...), written directly in TEAL;
+(iii) the golden .teal files of the repository must assemble without a legality issue
+     at their pragma version and show no stack-discipline violation in absint.
+"""
+import glob
+import os
+import sys
+
+from . import asm, interp
+
+M = (1 << 64) - 1
+
+# (program body, expected)  expected: list = final stack when the program is run to its end with "int 1; return"
+# appended and stack captured; "FAIL" = must fail.
+V = [
+    ("int 1; int 2; +", [3]),
+    ("int 18446744073709551615; int 1; +", "FAIL"),
+    ("int 1; int 2; -", "FAIL"),
+    ("int 5; int 2; -", [3]),
+    ("int 4294967296; int 4294967296; *", "FAIL"),
+    ("int 4294967295; int 4294967297; *", [M]),
+    ("int 7; int 2; /", [3]),
+    ("int 7; int 0; /", "FAIL"),
+    ("int 7; int 0; %", "FAIL"),
+    ("int 7; int 4; %", [3]),
+    ("int 2; int 3; <", [1]),
+    ("int 3; int 3; <=", [1]),
+    ("int 3; int 3; >", [0]),
+    ("int 3; int 3; >=", [1]),
+    ("int 0; int 5; &&", [0]),
+    ("int 2; int 5; &&", [1]),
+    ("int 0; int 0; ||", [0]),
+    ("int 0; int 9; ||", [1]),
+    ("int 1; byte 0x01; ==", "FAIL"),
+    ("byte 0x01; byte 0x01; ==", [1]),
+    ("byte 0x01; byte 0x0001; ==", [0]),
+    ("byte 0x01; byte 0x02; !=", [1]),
+    ("int 0; !", [1]),
+    ("int 7; !", [0]),
+    ("int 0; ~", [M]),
+    ("int 6; int 3; &", [2]),
+    ("int 6; int 3; |", [7]),
+    ("int 6; int 3; ^", [5]),
+    ("byte 0x; len", [0]),
+    ("byte 0x0102; len", [2]),
+    ("int 258; itob", [b"\x00\x00\x00\x00\x00\x00\x01\x02"]),
+    ("byte 0x0102; btoi", [258]),
+    ("byte 0x; btoi", [0]),
+    ("byte 0x010203040506070809; btoi", "FAIL"),
+    ("int 18446744073709551615; int 2; mulw", [1, M - 1]),
+    ("int 18446744073709551615; int 1; addw", [1, 0]),
+    ("int 0; int 10; int 0; int 3; divmodw", [0, 3, 0, 1]),
+    ("int 1; int 0; int 0; int 2; divmodw", [0, 1 << 63, 0, 0]),
+    ("int 1; int 0; int 0; int 0; divmodw", "FAIL"),
+    ("int 0; int 10; int 3; divw", [3]),
+    ("int 1; int 0; int 1; divw", "FAIL"),
+    ("int 1; int 0; int 0; divw", "FAIL"),
+    ("int 2; int 10; exp", [1024]),
+    ("int 0; int 0; exp", "FAIL"),
+    ("int 0; int 5; exp", [0]),
+    ("int 7; int 0; exp", [1]),
+    ("int 2; int 64; exp", "FAIL"),
+    ("int 1; int 1000; exp", [1]),
+    ("int 2; int 64; expw", [1, 0]),
+    ("int 2; int 128; expw", "FAIL"),
+    ("int 0; int 0; expw", "FAIL"),
+    ("int 1; int 63; shl", [1 << 63]),
+    ("int 3; int 63; shl", [1 << 63]),
+    ("int 1; int 64; shl", "FAIL"),
+    ("int 8; int 2; shr", [2]),
+    ("int 8; int 64; shr", "FAIL"),
+    ("int 17; sqrt", [4]),
+    ("int 18446744073709551615; sqrt", [4294967295]),
+    ("int 0; bitlen", [0]),
+    ("int 8; bitlen", [4]),
+    ("byte 0x000100; bitlen", [9]),
+    ("byte 0x; bitlen", [0]),
+    ("byte 0x0100; bsqrt", [b"\x10"]),
+    ("byte 0x01; byte 0xff; b+", [b"\x01\x00"]),
+    ("byte 0x01; byte 0x02; b-", "FAIL"),
+    ("byte 0x02; byte 0x02; b-", [b""]),
+    ("byte 0x0100; byte 0x01; b-", [b"\xff"]),
+    ("byte 0x10; byte 0x10; b*", [b"\x01\x00"]),
+    ("byte 0x10; byte 0x; b/", "FAIL"),
+    ("byte 0x10; byte 0x03; b/", [b"\x05"]),
+    ("byte 0x10; byte 0x03; b%", [b"\x01"]),
+    ("byte 0x10; byte 0x00; b%", "FAIL"),
+    ("byte 0x0001; byte 0x01; b==", [1]),
+    ("byte 0x0001; byte 0x02; b<", [1]),
+    ("byte 0x02; byte 0x0001; b>", [1]),
+    ("byte 0x02; byte 0x0002; b<=", [1]),
+    ("byte 0x02; byte 0x0002; b>=", [1]),
+    ("byte 0x02; byte 0x0002; b!=", [0]),
+    ("byte 0xff; byte 0x0f0f; b|", [b"\x0f\xff"]),
+    ("byte 0xff; byte 0x0f0f; b&", [b"\x00\x0f"]),
+    ("byte 0xff; byte 0x0f0f; b^", [b"\x0f\xf0"]),
+    ("byte 0x00ff; b~", [b"\xff\x00"]),
+    ("int 3; bzero", [b"\x00\x00\x00"]),
+    ("int 4097; bzero", "FAIL"),
+    ("byte 0x01; byte 0x02; concat", [b"\x01\x02"]),
+    ("int 4096; bzero; byte 0x01; concat", "FAIL"),
+    ("byte 0x0102030405; substring 1 3", [b"\x02\x03"]),
+    ("byte 0x0102030405; substring 1 6", "FAIL"),
+    ("byte 0x0102030405; int 1; int 3; substring3", [b"\x02\x03"]),
+    ("byte 0x0102030405; int 3; int 1; substring3", "FAIL"),
+    ("byte 0x0102030405; int 5; int 5; substring3", [b""]),
+    ("byte 0x0102030405; int 5; int 6; substring3", "FAIL"),
+    ("byte 0x0102030405; extract 1 2", [b"\x02\x03"]),
+    ("byte 0x0102030405; extract 1 0", [b"\x02\x03\x04\x05"]),
+    ("byte 0x0102030405; extract 5 0", [b""]),
+    ("byte 0x0102030405; extract 6 0", "FAIL"),
+    ("byte 0x0102030405; extract 4 2", "FAIL"),
+    ("byte 0x0102030405; int 1; int 0; extract3", [b""]),
+    ("byte 0x0102030405; int 1; int 4; extract3", [b"\x02\x03\x04\x05"]),
+    ("byte 0x0102030405; int 1; int 5; extract3", "FAIL"),
+    ("byte 0x0102030405; int 6; int 0; extract3", "FAIL"),
+    ("byte 0x0102030405; int 1; extract_uint16", [0x0203]),
+    ("byte 0x0102030405; int 1; extract_uint32", [0x02030405]),
+    ("byte 0x0102030405; int 2; extract_uint32", "FAIL"),
+    ("byte 0x0102030405060708; int 0; extract_uint64", [0x0102030405060708]),
+    ("byte 0x0102030405; byte 0xaabb; replace2 1", [b"\x01\xaa\xbb\x04\x05"]),
+    ("byte 0x0102030405; byte 0xaabb; replace2 4", "FAIL"),
+    ("byte 0x0102030405; int 3; byte 0xaabb; replace3", [b"\x01\x02\x03\xaa\xbb"]),
+    ("byte 0x0102; int 1; getbyte", [2]),
+    ("byte 0x0102; int 2; getbyte", "FAIL"),
+    ("byte 0x0102; int 0; int 255; setbyte", [b"\xff\x02"]),
+    ("byte 0x0102; int 0; int 256; setbyte", "FAIL"),
+    ("int 4; int 2; getbit", [1]),
+    ("int 4; int 64; getbit", "FAIL"),
+    ("byte 0x80; int 0; getbit", [1]),
+    ("byte 0x01; int 7; getbit", [1]),
+    ("byte 0x01; int 8; getbit", "FAIL"),
+    ("int 0; int 3; int 1; setbit", [8]),
+    ("int 15; int 0; int 0; setbit", [14]),
+    ("byte 0x00; int 0; int 1; setbit", [b"\x80"]),
+    ("byte 0x00; int 7; int 1; setbit", [b"\x01"]),
+    ("byte 0xff; int 1; int 0; setbit", [b"\xbf"]),
+    ("byte 0x00; int 7; int 2; setbit", "FAIL"),
+    ("int 1; int 2; pop", [1]),
+    ("int 1; dup", [1, 1]),
+    ("int 1; int 2; dup2", [1, 2, 1, 2]),
+    ("int 1; int 2; swap", [2, 1]),
+    ("int 1; int 2; int 3; dig 2", [1, 2, 3, 1]),
+    ("int 1; int 2; int 3; dig 3", "FAIL"),
+    ("int 1; int 2; int 3; cover 2", [3, 1, 2]),
+    ("int 1; int 2; int 3; cover 3", "FAIL"),
+    ("int 1; int 2; int 3; uncover 2", [2, 3, 1]),
+    ("int 1; int 2; int 3; uncover 0", [1, 2, 3]),
+    ("int 1; int 2; int 3; bury 2", [3, 2]),
+    ("int 1; int 2; int 3; bury 1", [1, 3]),
+    ("int 1; int 2; int 3; bury 3", "FAIL"),
+    ("int 7; dupn 2", [7, 7, 7]),
+    ("int 7; dupn 0", [7]),
+    ("int 1; int 2; int 3; popn 2", [1]),
+    ("int 1; popn 2", "FAIL"),
+    ("int 10; int 20; int 1; select", [20]),
+    ("int 10; int 20; int 0; select", [10]),
+    ("byte 0x61; int 20; int 5; select", [20]),
+    ("int 5; store 3; load 3", [5]),
+    ("load 9", [0]),
+    ("int 3; int 5; stores; int 3; loads", [5]),
+    ("int 256; loads", "FAIL"),
+    ("int 0; assert", "FAIL"),
+    ("int 2; assert; int 1", [1]),
+    ("err", "FAIL"),
+    ("byte 0x61; sha256; len", [32]),
+    ("byte 0x; sha512_256", [bytes.fromhex("c672b8d1ef56ed28ab87c3622c5114069bdd3ad7b8f9737498d0c01ecef0967a")]),
+    ("byte 0x; sha256", [bytes.fromhex("e3b0c44298fc1c149afbf4c8996fb92427ae41e4649b934ca495991b7852b855")]),
+    ("byte 0x; keccak256", [bytes.fromhex("c5d2460186f7233c927e7db2dcc703c0e500b653ca82273b7bfad8045d85a470")]),
+    ("byte 0x; sha3_256", [bytes.fromhex("a7ffc6f8bf1ed76651c14756a061d662f580ff4de43b49fa82d80a4b80f8434a")]),
+    ("int 1; bnz l1; err; l1:; int 5", [5]),
+    ("int 0; bnz l1; int 6; b l2; l1:; int 5; l2:", [6]),
+    ("int 0; bz l1; err; l1:; int 5", [5]),
+    ("int 1; switch a b; int 9; b e; a:; int 10; b e; b:; int 11; e:", [11]),
+    ("int 5; switch a b; int 9; b e; a:; int 10; b e; b:; int 11; e:", [9]),
+    ("byte 0x61; byte 0x62; byte 0x62; match a b; int 9; b e; a:; int 10; b e; b:; int 11; e:", [11]),
+    ("intcblock 5 6 7 8 9; intc_0; intc_3; intc 4", [5, 8, 9]),
+    ("bytecblock 0x61 0x62; bytec_1; bytec 0", [b"b", b"a"]),
+    ("intcblock 5; intc_1", "FAIL"),
+    ("pushint 77; pushbytes 0x6162", [77, b"ab"]),
+    ("pushints 1 2 3", [1, 2, 3]),
+    ("pushbytess 0x61 \"b\"", [b"a", b"b"]),
+    ("byte \"a\\x62\\n\\\"\"", [b"ab\n\""]),
+    ("byte base64(YWI=); byte b64 YWI=; byte base32(MFRA); byte b32 MFRA====", [b"ab", b"ab", b"ab", b"ab"]),
+    ("int OptIn; int DeleteApplication; int pay; int appl; int axfer", [1, 5, 1, 6, 4]),
+    ("int 0x10; int 010", [16, 8]),
+    ("addr AAAAAAAAAAAAAAAAAAAAAAAAAAAAAAAAAAAAAAAAAAAAAAAAAAAAY5HFKQ; len", [32]),
+    ("method \"add(uint64,uint64)uint64\"", [bytes.fromhex("fe6bdf69")]),
+    # subroutines
+    ("int 3; callsub f; int 1; +; b e; f:; int 2; *; retsub; e:", [7]),
+    ("retsub", "FAIL"),
+    ("int 3; int 4; callsub f; b e; f:; proto 2 1; frame_dig -2; frame_dig -1; +; retsub; e:", [7]),
+    ("int 9; int 3; int 4; callsub f; b e; f:; proto 2 1; frame_dig -2; frame_dig -1; +; int 100; retsub; e:", [9, 7]),
+    ("int 3; callsub f; b e; f:; proto 1 1; int 0; dupn 2; int 8; frame_bury 0; int 9; frame_bury 2; frame_dig 2; frame_dig -1; +; frame_bury 0; retsub; e:", [12]),
+    ("int 3; callsub f; b e; f:; proto 1 2; int 5; retsub; e:", "FAIL"),
+    ("int 3; callsub f; b e; f:; proto 2 0; retsub; e:", "FAIL"),
+    ("int 3; callsub f; b e; f:; int 1; proto 1 0; retsub; e:", "FAIL"),
+    ("int 3; callsub f; b e; f:; proto 1 0; frame_dig 0; retsub; e:", "FAIL"),
+    ("int 3; callsub f; b e; f:; proto 1 0; frame_dig -2; retsub; e:", "FAIL"),
+    ("int 3; callsub f; int 1; b e; f:; proto 1 0; int 7; int 8; retsub; e:", [1]),
+    ("int 1; frame_dig 0", "FAIL"),
+    ("int 1; int 2; int 3; callsub f; b e; f:; proto 3 3; frame_dig -1; frame_dig -2; frame_dig -3; retsub; e:", [3, 2, 1]),
+]
+
+# application-mode vectors: (body, ctx kwargs, expected stack or FAIL, expected effects or None)
+VA = [
+    ("byte 0x6b; int 5; app_global_put; byte 0x6b; app_global_get", {}, [5], [("gput", b"k", 5)]),
+    ("byte 0x6b; app_global_get", {}, [0], []),
+    ("int 0; byte 0x6b; app_global_get_ex", {"globals_": {b"k": b"v"}}, [b"v", 1], []),
+    ("int 0; byte 0x6a; app_global_get_ex", {"globals_": {b"k": b"v"}}, [0, 0], []),
+    ("byte 0x6b; app_global_del; int 0; byte 0x6b; app_global_get_ex", {"globals_": {b"k": 1}}, [0, 0], [("gdel", b"k")]),
+    ("byte 0x61; log; byte 0x62; log", {}, [], [("log", b"a"), ("log", b"b")]),
+    ("txn NumAppArgs; txna ApplicationArgs 1; int 0; txnas ApplicationArgs", {"args": [b"x", b"y"]}, [2, b"y", b"x"], []),
+    ("txna ApplicationArgs 2", {"args": [b"x", b"y"]}, "FAIL", None),
+    ("txn OnCompletion; txn ApplicationID; global GroupSize; txn GroupIndex", {}, [0, 7, 1, 0], []),
+    ("itxn_begin; int pay; itxn_field TypeEnum; int 5; itxn_field Amount; itxn_submit", {}, [],
+     [("itxn", [{"TypeEnum": 1, "Type": b"pay", "Amount": 5}])]),
+    ("itxn_begin; itxn_begin", {}, "FAIL", None),
+    ("int 5; itxn_field Amount", {}, "FAIL", None),
+    ("itxn_begin; byte 0x61; itxn_field Amount", {}, "FAIL", None),
+    ("itxn_begin; byte 0x61; itxn_field Receiver", {}, "FAIL", None),
+    ("itxn_begin; int appl; itxn_field TypeEnum; itxn_next; int pay; itxn_field TypeEnum; itxn_submit", {}, [],
+     [("itxn", [{"TypeEnum": 6, "Type": b"appl"}, {"TypeEnum": 1, "Type": b"pay"}])]),
+    ("itxn_submit", {}, "FAIL", None),
+    ("arg 0", {}, "FAIL", None),
+]
+
+PROGRAMS = [
+    # (teal, args, expected return value / 'FAIL')
+    # n! with a recursive subroutine (scratch convention)
+    ("""#pragma version 6
+txna ApplicationArgs 0
+btoi
+callsub fac
+return
+fac:
+store 0
+load 0
+int 2
+<
+bnz fac_base
+load 0
+load 0
+int 1
+-
+load 0
+swap
+callsub fac
+swap
+store 0
+*
+retsub
+fac_base:
+int 1
+retsub
+""", [(b"\x00", 1), (b"\x01", 1), (b"\x05", 120), (b"\x0a", 3628800)]),
+    # slow fibonacci with frame pointers
+    ("""#pragma version 8
+txna ApplicationArgs 0
+btoi
+callsub fib
+return
+fib:
+proto 1 1
+frame_dig -1
+int 1
+<=
+bz fib_rec
+frame_dig -1
+retsub
+fib_rec:
+frame_dig -1
+int 1
+-
+callsub fib
+frame_dig -1
+int 2
+-
+callsub fib
++
+retsub
+""", [(b"\x00", 0), (b"\x01", 1), (b"\x02", 1), (b"\x07", 13), (b"\x0a", 55)]),
+    # euclid gcd loop
+    ("""#pragma version 5
+txna ApplicationArgs 0
+btoi
+store 0
+txna ApplicationArgs 1
+btoi
+store 1
+loop:
+load 1
+bz done
+load 0
+load 1
+%
+load 1
+store 0
+store 1
+b loop
+done:
+load 0
+return
+""", [((b"\x0c", b"\x12"), 6), ((b"\x11", b"\x05"), 1), ((b"\x00", b"\x05"), 5)]),
+]
+
+
+def _run_vec(body, mode="A", **ctxkw):
+    text = "#pragma version 10\n" + body.replace("; ", "\n") + "\nint 1\nreturn\n"
+    p = asm.assemble(text)
+    args = ctxkw.pop("args", None)
+    if mode == "A":
+        txn = interp.default_txn(ApplicationArgs=list(args or []))
+        ctx = interp.Ctx(mode="A", group=[txn], **ctxkw)
+    else:
+        ctx = interp.Ctx(mode="S", args=list(args or []), **ctxkw)
+    r = interp.run(p, ctx, fuel=10000)
+    return p, r
 
 
 def main(quiet=False):
+    bad = []
+    n = 0
+    for body, exp in V:
+        n += 1
+        p, r = _run_vec(body)
+        if p.issues:
+            bad.append((body, "asm issues", p.issues))
+            continue
+        if exp == "FAIL":
+            if r.verdict != "FAIL":
+                bad.append((body, "expected FAIL", r))
+        else:
+            if r.verdict != "APPROVE" or r.stack != exp:
+                bad.append((body, "expected %r" % (exp,), (r.verdict, r.stack, r.why)))
+    for body, kw, exp, eff in VA:
+        n += 1
+        p, r = _run_vec(body, **dict(kw))
+        if exp == "FAIL":
+            if r.verdict != "FAIL":
+                bad.append((body, "expected FAIL", r))
+        else:
+            got_eff = [interp._fz(e) for e in r.effects]
+            if r.verdict != "APPROVE" or r.stack != exp or got_eff != [interp._fz(e) for e in eff]:
+                bad.append((body, "expected %r %r" % (exp, eff), (r.verdict, r.stack, r.effects, r.why)))
+    for text, cases in PROGRAMS:
+        p = asm.assemble(text, "A")
+        if p.issues:
+            bad.append((text[:40], "asm issues", p.issues))
+        for a, exp in cases:
+            n += 1
+            args = list(a) if isinstance(a, tuple) else [a]
+            r = interp.run(p, interp.Ctx(mode="A", group=[interp.default_txn(ApplicationArgs=args)]), fuel=100000)
+            if r.ret != exp:
+                bad.append((text[:40], "args %r expected %r" % (a, exp), r))
+    # (iii) golden corpus
+    ng, gbad = golden()
+    bad.extend(gbad)
+    if bad:
+        for b in bad[:40]:
+            print("SELFTEST FAIL:", b, file=sys.stderr)
+        print("AVM self-test: %d failures of %d vectors + %d golden files" % (len(bad), n, ng), file=sys.stderr)
+        return 1
+    if not quiet:
+        print("AVM self-test ok: %d vectors, %d golden TEAL files" % (n, ng))
     return 0
+
+
+def golden_files():
+    repo = os.environ.get("VERIF_REPO", "/repo")
+    files = sorted(glob.glob(os.path.join(repo, "tests", "**", "*.teal"), recursive=True))
+    files += sorted(glob.glob(os.path.join(repo, "examples", "**", "*.teal"), recursive=True))
+    return files
+
+
+def golden():
+    from . import absint
+    bad = []
+    files = golden_files()
+    for f in files:
+        try:
+            text = open(f).read()
+        except Exception:
+            continue
+        p = asm.assemble(text)
+        for ln, msg in p.issues:
+            bad.append((os.path.relpath(f, "/repo"), "asm", ln, msg))
+        if not p.issues:
+            for iss in absint.analyse(p).issues:
+                bad.append((os.path.relpath(f, "/repo"), "absint", iss))
+    return len(files), bad
+
+
+if __name__ == "__main__":
+    sys.exit(main())
